@@ -20,6 +20,12 @@ def run(ctx):
     C.proof_step(ctx, ['python-engineio client contract (DESIGN §4) as the environment of the client model',
                        'json.loads on server frames enters the model as a finite table from the real json.loads'])
     K.run_check(ctx, 'c09', ('C09',), RULE, nontrivial)
+    if ctx.thorough:
+        ok, out = C.leanchecker(['Sio.Props.C09'])
+        ctx.notes.append('leanchecker Sio.Props.C09: %s' % ('ok' if ok else 'FAILED'))
+        if not ok:
+            ctx.violation('proof', 'leanchecker rejected Sio.Props.C09: ' + out, {'theorem_or_build': out},
+                          no_input=True)
 
 
 def replay(ctx, r):
